@@ -13,7 +13,7 @@ use std::time::Duration;
 const PROP: &str = "C20";
 pub const PORT: u16 = 6503;
 pub const N_STATES: usize = 18;
-pub const N_VARIANTS: usize = 7;
+pub const N_VARIANTS: usize = 8;
 
 pub const STATE_NAMES: [&str; N_STATES] = [
     "S0_no_debugger",
@@ -43,6 +43,7 @@ pub const VARIANT_NAMES: [&str; N_VARIANTS] = [
     "V5_dap_disconnect_before_shutdown",
     "V6_dap_disconnect_after_shutdown",
     "V7_debugger_attaches_between_shutdown_and_exit",
+    "V8_client_dies_in_the_middle_of_a_message",
 ];
 
 const LONG_PROGRAM: &str = ".test \"t\" {\n    ldx #0\nouter:\n    ldy #0\ninner:\n    iny\n    bne inner\n    inx\n    bne outer\n    brk\n}\n";
@@ -472,6 +473,11 @@ pub fn scenario(case: &Case, slot: &Arc<StdMutex<Option<Verdict>>>) {
         2 => {
             lsp.close_pipe();
         }
+        7 => {
+            // the editor is killed while it writes a message: half a frame, then the pipe closes
+            let _ = lsp.raw(b"Content-Length: 58\r\n\r\n{\"jsonrpc\":\"2.0\",\"method\":\"textDocu");
+            lsp.close_pipe();
+        }
         _ => {
             // V4: shutdown, exit withheld; the 30-s timeout of lsp-server must fire
             let _ = lsp.request("shutdown", Value::Null);
@@ -591,7 +597,7 @@ fn judge(case: &Case, v: &Verdict, cell: &str) -> Option<Found> {
             ),
         });
     }
-    if case.variant == 2 && v.status == Some(101) {
+    if (case.variant == 2 || case.variant == 7) && v.status == Some(101) {
         return Some(Found {
             class: "exit_status".into(),
             sig: format!("exit_status_101:{}", cell),
